@@ -619,6 +619,11 @@ impl Sampler {
                         }
                     }
                     let _ = conn.as_ref().unwrap().execute_batch("ROLLBACK");
+                    if ok.is_ok() && arm_pid2.load(Ordering::Relaxed) != 0 {
+                        // still armed and not the state waited for: the next snapshot at once (the bookkeeping below would leave
+                        // the database unwatched for longer than the plugin needs between its two writes)
+                        continue;
+                    }
                 }
                 if ok.is_err() {
                     // busy (for longer than the timeout), or the schema is not there yet: not a sample
